@@ -128,3 +128,16 @@ REGISTRY["C18"] = {
 NOT_APPLICABLE = {
     "C17": "TLS record framing/fragmentation/truncation happens inside OpenSSL (ssl.SSLObject/MemoryBIO, C code): no available engine can execute it symbolically, and a stub would make the check a statement about the stub (DESIGN.md section 3, C17).",
 }
+
+
+_T_B = ("symbolic execution of the real Python code (CrossHair StateSpace driven to path exhaustion by symx; z3 decides every branch on the symbolic "
+        "schedule/inputs) on the real asyncio loop logic with a virtual symbolic clock; independent log oracle; z3+cvc5 coverage certificate; counterexamples replayed on plain CPython")
+_T_AB = "inductive one-step symbolic check from an arbitrary state satisfying the representation invariant (Layer A) + " + _T_B
+for _k, _v in REGISTRY.items():
+    _v.setdefault("technique", _T_AB if _k in ("C04", "C09", "C10", "C11") else _T_B)
+REGISTRY["C16"]["technique"] = ("symbolic execution of the real buffered-stream code over symbolic byte strings (z3 sequence theory), chunkings and arguments, to path exhaustion; "
+                                "text streams: solver-driven finite case split through the real codecs; counterexamples replayed on plain CPython")
+REGISTRY["C19"]["technique"] = "differential symbolic execution against the stdlib namesakes on symbolic element lists and parameters, to path exhaustion; tee on the virtual loop; concrete replay"
+REGISTRY["C08"]["technique"] = "symbolic execution of every cell of the operation x fast-path-state matrix with symbolic scope-chain flags and state parameters, to path exhaustion; concrete replay"
+for _k in ("C14", "C15", "C18"):
+    REGISTRY[_k]["technique"] = "PARTIAL: " + _T_B + "; the OS-thread / caller-thread / transport boundary is a contract stub driven at symbolic instants"
